@@ -218,6 +218,10 @@ func (v *visitor) BinaryNode(node *ast.BinaryNode) reflect.Type {
 			return boolType
 		}
 		if isMap(r) {
+			// The VM looks the left operand up as a key of the map.
+			if m := dereference(r); m.Kind() == reflect.Map && l != nil && !isInterface(l) && !l.AssignableTo(m.Key()) {
+				return v.error(node, "invalid operation: cannot use %v as a key of %v", l, m)
+			}
 			return boolType
 		}
 		if isArray(r) {
